@@ -218,12 +218,22 @@ def monitored(disp):
     rec.ever_written = set()
     rec.uninit_reads = []
     npp = NpProxy(rec)
-    f = disp.py_func
-    g = dict(f.__globals__)
-    g.update(numba=_NumbaProxy(numba, rec), np=npp, Dict=FakeDict, range=_range)
-    nf = types.FunctionType(f.__code__, g, f.__name__, f.__defaults__, f.__closure__)
-    nf.__kwdefaults__ = f.__kwdefaults__
-    return nf, rec, npp
+
+    def interp(f, inner):
+        g = dict(f.__globals__)
+        g.update(numba=_NumbaProxy(numba, rec), np=npp, Dict=FakeDict, range=_range)
+        if inner:
+            # `disp` is a plain Python function (a wrapper put around the compiled kernel): the parallel kernels of its own module that it
+            # names are interpreted under the same recorder, so the loops are still observed
+            for name in f.__code__.co_names:
+                v = f.__globals__.get(name)
+                if hasattr(v, 'py_func') and getattr(v, 'targetoptions', {}).get('parallel') and getattr(v.py_func, '__module__', None) == f.__module__:
+                    g[name] = interp(v.py_func, False)
+        nf = types.FunctionType(f.__code__, g, f.__name__, f.__defaults__, f.__closure__)
+        nf.__kwdefaults__ = f.__kwdefaults__
+        return nf
+
+    return interp(getattr(disp, 'py_func', disp), not hasattr(disp, 'py_func')), rec, npp
 
 
 def analyse(rec, npp, out_prefix_lengths=None):
